@@ -47,7 +47,8 @@ func (om *options) try(args []string, c *ParseContext) (bool, []string) {
 			continue
 		}
 		if ok, nargs := (&opt{theOne: o, index: om.index}).Match(args, c); ok {
-			if o.ValueSetFromEnv {
+			if o.ValueSetFromEnv && sameStrings(args, nargs) {
+				// matched thanks to its env var without consuming anything: don't try it again
 				c.ExcludedOpts[o] = struct{}{}
 			}
 			return true, nargs
